@@ -72,7 +72,7 @@ func RunConfigs(e *Env) {
 		R.Note(fmt.Sprintf("example FNV-1a collision found at run time: %s / %s -> id %d", coll[0][0], coll[0][1], fnvID(coll[0][0])))
 	}
 	rng := e.Rand(14)
-	nprog := e.Pick(3000, 150000)
+	nprog := e.Pick(3000, 300000)
 	if e.Of > 1 {
 		nprog /= e.Of
 	}
